@@ -645,6 +645,8 @@ def _passed(outcome, F, g):
             return True
         if st is not None and cfg.nodes[b].kind == "stmt" and outcome.completed(F, st):
             return True        # guard = handler of a try: the protected statement ran without raising (dict lookup hit)
+        if st is not None and cfg.nodes[b].kind == "loop" and isinstance(st, ast.For) and outcome.loop_decided(F, st):
+            return True        # guard = raise behind / in the else of a walk over a constant table: the walk left early
     return False
 
 
